@@ -229,7 +229,7 @@ def run(ctx):
     rng = ctx.rng
     quick = ctx.quick
     K = 5 if quick else 10
-    n_tables = 72 if quick else 1200
+    n_tables = 150 if quick else 1200
     ctx.rule = (
         "generated tables (1-4 samples, 2-8 mutations, per mutation one of: clean / missing in a sample / duplicated in one or "
         "all samples / major copy number 0 in one or all samples / extra row with major 0 / major 0 < minor / major < minor "
@@ -293,6 +293,11 @@ def run(ctx):
             if cluster:
                 cobs.append(observe(p, cluster_file=base + "_clusters.tsv"))
         p0 = "%s_o0%s" % (base, ext)
+        if tab["numeric"] and obs[0]["kind"] == "ok" and obs[0]["names"] and isinstance(obs[0]["names"][0], str):
+            # an all-digit id column kept as strings: lexicographic order is then the sorted identifier order
+            tab["numeric"] = numeric = False
+            orc = oracle(tab)
+            ctx.count("numeric_ids_loaded_as_strings")
         nontrivial = 0 < len(orc["kept"]) < len(set(tab["muts"]))
         ctx.case(key=hashlib.sha1(repr((sorted(map(repr, tab["rows"])), tab["sep"], tab["has_tc"], tab["has_er"])).encode()).hexdigest(), nontrivial=nontrivial, n=K,
                  sample={"mutations": tab["defects"], "samples": tab["sids"], "sep": tab["sep"], "kept": orc["kept"], "outcome": obs[0]["kind"]})
